@@ -242,4 +242,31 @@ def StyleRoundtrip (vt vm vs : Variant) : Prop :=
   ∀ (c : Cell) (name : Str) (x : Val) (sh : Shape), singleStringCell c = true → cellShape c = some sh →
     Decodable name sh x → ∃ w, cellWire vt vm vs c name x = some w ∧ decodeCell c name w = some (coerce x)
 
+/-! ### UTF-8 (RFC 3629), strict reference decoder -/
+
+/-- Unicode scalar values -/
+def isScalar (cp : Nat) : Bool := cp < 1114112 && !(55296 ≤ cp && cp ≤ 57343)
+
+/-- byte-at-a-time strict decoder: `need` continuation bytes outstanding, `acc` the bits so far, `lo` the smallest
+    code point the current length may encode (overlong forms are rejected) -/
+def utf8Dec : Nat → Nat → Nat → Bytes → Option Str
+  | 0, _, _, [] => some []
+  | _ + 1, _, _, [] => none
+  | 0, _, _, b :: rest =>
+    if b < 128 then (utf8Dec 0 0 0 rest).map (b :: ·)
+    else if 194 ≤ b ∧ b < 224 then utf8Dec 1 (b - 192) 128 rest
+    else if 224 ≤ b ∧ b < 240 then utf8Dec 2 (b - 224) 2048 rest
+    else if 240 ≤ b ∧ b < 245 then utf8Dec 3 (b - 240) 65536 rest
+    else none
+  | n + 1, acc, lo, b :: rest =>
+    if 128 ≤ b ∧ b < 192 then
+      if n = 0 then
+        if lo ≤ acc * 64 + (b - 128) ∧ isScalar (acc * 64 + (b - 128)) = true then
+          (utf8Dec 0 0 0 rest).map ((acc * 64 + (b - 128)) :: ·)
+        else none
+      else utf8Dec n (acc * 64 + (b - 128)) lo rest
+    else none
+
+def utf8Decode (bs : Bytes) : Option Str := utf8Dec 0 0 0 bs
+
 end SV.Spec.C06
